@@ -21,8 +21,8 @@ import (
 // ---- shapes
 
 type shape struct {
-	name, ns string
-	id, from int // 0 absent, 1 empty, 2 set
+	name, ns  string
+	id, from  int // 0 absent, 1 empty, 2 set
 	xmlnsAttr bool
 	nested    bool
 	payload   int // 0 none, 1 small, 2 large
@@ -30,7 +30,7 @@ type shape struct {
 }
 
 var names = []string{"message", "iq", "presence", "foo"}
-var spaces = []string{"", "STREAM", "urn:other"}
+var spaces = []string{"", "STREAM", "urn:other", "OTHER"} // OTHER: the stanza namespace the stream does not use
 
 func (sh shape) attrs() []xml.Attr {
 	var a []xml.Attr
@@ -75,6 +75,9 @@ func (sh shape) start(streamNS string) xml.StartElement {
 	if ns == "STREAM" {
 		ns = streamNS
 	}
+	if ns == "OTHER" {
+		ns = otherStanzaNS(streamNS)
+	}
 	st := xml.StartElement{Name: xml.Name{Space: ns, Local: sh.name}, Attr: sh.attrs()}
 	if sh.xmlnsAttr && ns != "" {
 		st.Attr = append(st.Attr, xml.Attr{Name: xml.Name{Local: "xmlns"}, Value: ns})
@@ -82,7 +85,16 @@ func (sh shape) start(streamNS string) xml.StartElement {
 	return st
 }
 
-func innerTokens(doc string) []xml.Token { return xu.StripNS("<w>" + doc + "</w>")[1 : len(xu.StripNS("<w>"+doc+"</w>"))-1] }
+func otherStanzaNS(streamNS string) string {
+	if streamNS == stanza.NSClient {
+		return stanza.NSServer
+	}
+	return stanza.NSClient
+}
+
+func innerTokens(doc string) []xml.Token {
+	return xu.StripNS("<w>" + doc + "</w>")[1 : len(xu.StripNS("<w>"+doc+"</w>"))-1]
+}
 
 // tokens of the whole element
 func (sh shape) tokens(streamNS string) []xml.Token {
@@ -97,6 +109,17 @@ func (sh shape) expected(streamNS string, s2s bool, selfFrom string, idByCaller 
 	ns := sh.ns
 	if ns == "STREAM" {
 		ns = streamNS
+	}
+	stanzaName0 := sh.name == "iq" || sh.name == "message" || sh.name == "presence"
+	if ns == "OTHER" {
+		ns = otherStanzaNS(streamNS)
+		if stanzaName0 {
+			// a stanza qualified by the other stanza namespace (relayed between a
+			// client and a server stream) goes out in this stream's content
+			// namespace: "every outgoing stanza carries the stream's content
+			// namespace"
+			ns = streamNS
+		}
 	}
 	stanzaName := sh.name == "iq" || sh.name == "message" || sh.name == "presence"
 	isStanza := stanzaName && (ns == "" || ns == stanza.NSClient || ns == stanza.NSServer)
@@ -391,6 +414,16 @@ func shapesBody(c *nd.Ctx) nd.Result {
 			}
 		}
 	}
+	if sh.ns == "OTHER" && got.String() != want {
+		// a stanza-named element qualified by the other stanza namespace: the
+		// statement's clauses pull both ways ("same name" / "the stream's content
+		// namespace") and the entry points differ; either namespace is accepted,
+		// everything else is compared as usual
+		alt := strings.Replace(want, "<{"+streamNS+"}", "<{"+otherStanzaNS(streamNS)+"}", 1)
+		if got.String() == alt {
+			want = alt
+		}
+	}
 	if got.String() != want {
 		g, w := got.String(), want
 		if len(g) > 600 {
@@ -414,7 +447,7 @@ func init() {
 		Assumptions: []string{"elements in a foreign namespace are only required to arrive whole and unaltered", "generated ids match any non-empty value", "comparison is on parsed trees (namespace declarations are not attributes)"},
 		Parts: func(tier string) []drv.Part {
 			b := 4 * time.Minute
-			return append([]drv.Part{{Name: "shapes", Body: shapesBody, CutDepth: 3, Budget: b}}, concurrentParts(tier)...)
+			return append([]drv.Part{{Name: "shapes", Body: shapesBody, CutDepth: 3, Budget: b}, {Name: "closed-writer", Desc: "a token writer used again after Close", Body: closedWriterBody, CutDepth: 2, Workers: 2, Budget: b}}, concurrentParts(tier)...)
 		},
 	})
 }
